@@ -166,7 +166,7 @@ FILTERS: dict[str, tuple[str, list[str], str]] = {
     "times": ("num", ["num"], "num"),
     "divided_by": ("num", ["num"], "num"),
     "modulo": ("num", ["num"], "num"),
-    "json": ("any", ["indent?"], "str"),
+    "json": ("jsonable", ["indent?"], "str"),
     "date": ("date", ["datefmt"], "str"),
     "safe": ("str", [], "str"),
 }
@@ -194,6 +194,9 @@ def compatible(have: str, want: str) -> bool:
         return have in LIST_TYPES
     if want == "seq":
         return have in LIST_TYPES or have == "str"
+    if want == "jsonable":
+        return have in ("int", "float", "str", "bool", "ints", "strs", "hashes", "grid", "hash:item", "hash:user",
+                        "hash:addr")
     if want == "scalar":
         return have in ("int", "float", "str", "bool", "nil")
     if want == "date":
@@ -473,6 +476,21 @@ class Gen:
             return ["range", a, b]
         return self.literal(want)
 
+    SAFE_ROOTS = {"int": ["n", "m", "idx", "a-b"], "float": ["f"], "str": ["s", "t", "é"], "bool": ["flag"]}
+
+    def safe_prim(self, ty: str) -> list[Any]:
+        """An operand that is always present with exactly type `ty` (literal or an
+        un-shadowed root variable the data strategy always supplies): used where a missing
+        or ill-typed operand would abort the render with a type error."""
+        if ty == "num":
+            ty = self.pick(["int", "int", "float"])
+        roots = [r for r in self.SAFE_ROOTS.get(ty, []) if self.scope.get(r) == SCHEMA.get(r)]
+        if roots and self.p(0.6) and not self.p(self.cfg.confusion):
+            return ["path", self.pick(roots), []]
+        if self.p(self.cfg.confusion):
+            return self.prim("any", 0)
+        return self.literal(ty)
+
     def tstr(self, depth: int) -> list[Any]:
         parts: list[Any] = []
         for _ in range(self.i(1, 3)):
@@ -518,7 +536,14 @@ class Gen:
                         break
                     args.append(["pos", ["str", self.pick(list(ITEM_KEYS) + ["missing"])]])
                 elif at == "list":
-                    args.append(["pos", self.prim("list", 0)])
+                    lists = [r for r in ("nums", "words", "items", "grid") if self.scope.get(r) == SCHEMA.get(r)]
+                    args.append(["pos", ["path", self.pick(lists), []] if lists else self.prim("list", 0)])
+                elif at in ("int", "num") and name in ("divided_by", "modulo"):
+                    args.append(["pos", self.pick([["int", 1], ["int", 2], ["int", 3], ["int", -2], ["float", "0.5"],
+                                                   ["float", "2.5"], ["int", 7], ["int", 0]]) if not self.p(0.2)
+                                 else self.safe_prim("num")])
+                elif at in ("int", "num"):
+                    args.append(["pos", self.safe_prim(at)])
                 elif at == "indent":
                     # huge indents are a known finding (C02 json-indent-memoryerror): GBs per render
                     args.append(["pos", ["int", self.i(0, 6)]])
@@ -651,14 +676,18 @@ class Gen:
         if r < 9:
             ty = self.pick(["int", "int", "str", "num", "bool", "any"])
             op = self.pick(["==", "!=", "<", ">", "<=", ">="] if ty in ("int", "str", "num") else ["==", "!="])
+            if op in ("<", ">", "<=", ">="):
+                # ordering raises a type error for nil / mixed types: keep operands well typed
+                return ["cmp", op, self.safe_prim(ty), self.safe_prim(ty)]
             a = self.prim(ty, 1)
             b = self.prim(ty, 1) if not self.p(0.15) else [self.pick(["empty", "blank", "nil"])]
-            if b[0] in ("empty", "blank", "nil"):
-                op = self.pick(["==", "!="])
             return ["cmp", op, a, b]
         if r == 9:
-            hay = self.prim(self.pick(["str", "strs", "ints"]), 1)
-            needle = self.prim("str" if self.static_type(hay) != "ints" else "int", 0)
+            hk = self.pick(["str", "strs", "ints"])
+            hay = self.safe_prim("str") if hk == "str" else ["path", {"strs": "words", "ints": "nums"}[hk], []]
+            if hay[0] == "path" and self.scope.get(hay[1]) != SCHEMA.get(hay[1]):
+                hay = self.literal("str")
+            needle = self.prim("str" if hk != "ints" else "int", 0)
             if self.p(0.5):
                 return ["cmp", "contains", hay, needle]
             return ["cmp", "in", needle, hay]
@@ -798,12 +827,12 @@ class Gen:
                 el = "any"
             else:
                 if self.p(0.3):
-                    s["limit"] = self.prim("int", 0) if self.p(0.3) else ["int", self.i(0, 4)]
+                    s["limit"] = self.safe_prim("int") if self.p(0.3) else ["int", self.i(0, 4)]
                 if self.p(0.3):
                     if c.offset_continue and self.p(0.3) and k == "for":
                         s["offset"] = "continue"
                     else:
-                        s["offset"] = self.prim("int", 0) if self.p(0.3) else ["int", self.i(0, 3)]
+                        s["offset"] = self.safe_prim("int") if self.p(0.3) else ["int", self.i(0, 3)]
                 if k == "tablerow" and self.p(0.6):
                     s["cols"] = ["int", self.i(1, 3)]
                 s["reversed"] = self.p(0.2)
@@ -904,7 +933,16 @@ class Gen:
         self.budget = 6
         self.partials = {}
         try:
-            return self.block(1, min_stmts=1)
+            body = self.block(1, min_stmts=1)
+            # make the bindings a caller can establish observable: the `with/for` binding is
+            # named after the template's base name (or the alias), keyword args are p / q
+            probes: list[dict[str, Any]] = []
+            for nm in (base, "p", "q", "it"):
+                if self.p(0.5):
+                    probes.append({"t": "out", "e": ["path", nm, []], "wc": ["", ""]})
+            if self.p(0.3):
+                probes.append({"t": "out", "e": ["path", "forloop", [["n", "index"]]], "wc": ["", ""]})
+            return probes + body
         finally:
             self.scope, self.in_isolated, self.budget, self.partials = saved
 
